@@ -599,6 +599,16 @@ func runC14(c *Ctx) {
 			wg.Add(1)
 			go func() {
 				defer wg.Done()
+				defer func() {
+					if rec := recover(); rec != nil {
+						mu.Lock()
+						if ok {
+							ok = false
+							c.Violate(Finding{Desc: fmt.Sprintf("concurrent evaluation panicked: %v", rec), Key: "panic-concurrent", Input: J{"level": lvl, "minor": m, "pod": cp}})
+						}
+						mu.Unlock()
+					}
+				}()
 				<-start
 				again := cev.EvaluatePod(lv, &p.ObjectMeta, &p.Spec)
 				if !reflect.DeepEqual(first, again) {
